@@ -33,6 +33,7 @@ import (
 	"sort"
 	"strings"
 	"testing"
+	"time"
 
 	sdkmath "cosmossdk.io/math"
 	"github.com/NibiruChain/collections"
@@ -59,6 +60,10 @@ import (
 
 const c11NAddr = 8 // ids 0..4: fixture key pairs (possible validators), 5..7: strangers
 
+const c11SlashWindow = uint64(1) << 40
+
+const c11UnbondingTime = 100 * time.Second
+
 type c11Op struct {
 	Kind     string   `json:"kind"`
 	H        int64    `json:"h"`
@@ -74,6 +79,7 @@ type c11Op struct {
 	VP       uint64   `json:"vp,omitempty"`
 	WL       []string `json:"wl,omitempty"`
 	Bad      string   `json:"bad,omitempty"` // prevote | vote | delegate
+	N        uint32   `json:"n,omitempty"`   // maxvals: staking MaxValidators
 }
 
 type c11Input struct {
@@ -90,7 +96,9 @@ type c11Obs struct {
 	Votes  [][2]int   `json:"votes"` // validator id, tuples id
 	Feed   [][2]int   `json:"feed"`  // validator id, delegate id
 	VP     uint64     `json:"vp"`
-	Status []int      `json:"status"` // per address id: 0 no validator, 1 not bonded, 2 bonded
+	Status []int      `json:"status"`     // per address id: 0 no validator, 1 not bonded, 2 bonded (= Validator(v).IsBonded())
+	VState []string   `json:"vstate"`     // finer, for the input distribution: none | bonded | unbonding | unbonding-jailed | unbonded | unbonded-jailed
+	EditOK bool       `json:"edit_valid"` // edit: the merged params satisfy Params.Validate (VotePeriod <= SlashWindow)
 	// reference values computed by the harness for this op (inputs of the model)
 	HashID   int    `json:"hash_id"`
 	HexOK    bool   `json:"hex_ok"`
@@ -138,7 +146,8 @@ func c11Setup(t *testing.T) *c11Base {
 
 type c11World struct {
 	*c11Base
-	ctx    sdk.Context // the case's branch
+	ctx    sdk.Context   // the case's branch
+	off    time.Duration // block-time offset ("mature" advances it past the unbonding time)
 	ms     otypes.MsgServer
 	sh     stakingtypes.MsgServer
 	ids    map[string]int // hash string -> id (from 1)
@@ -162,11 +171,16 @@ func newC11World(t *testing.T, in c11Input) *c11World {
 	k := b.app.OracleKeeper
 	params, _ := k.Params.Get(w.ctx)
 	params.VotePeriod = in.VP0
-	params.SlashWindow = 1 << 40 // never reached: slashing/jailing by the oracle is C12's subject
+	params.SlashWindow = c11SlashWindow // never reached: slashing/jailing by the oracle is C12's subject
 	params.MinVoters = 1
 	k.Params.Set(w.ctx, params)
 	w.ms = okeeper.NewMsgServerImpl(k, b.app.SudoKeeper)
 	w.sh = stakingkeeper.NewMsgServerImpl(b.app.StakingKeeper)
+	sp := b.app.StakingKeeper.GetParams(w.ctx)
+	sp.UnbondingTime = c11UnbondingTime
+	if err := b.app.StakingKeeper.SetParams(w.ctx, sp); err != nil {
+		t.Fatal(err)
+	}
 	for i := 0; i < in.NVals && i < 5; i++ {
 		if err := w.createValidator(w.ctx, i); err != nil {
 			t.Fatalf("create validator %d: %v", i, err)
@@ -202,20 +216,25 @@ func refHash(salt, rates string, val sdk.ValAddress) string {
 	return hex.EncodeToString(sum[:20])
 }
 
-func (w *c11World) status(ctx sdk.Context) []int {
+func (w *c11World) status(ctx sdk.Context) ([]int, []string) {
 	out := make([]int, c11NAddr)
+	fine := make([]string, c11NAddr)
 	for i, a := range w.acc {
 		v := w.app.StakingKeeper.Validator(ctx, sdk.ValAddress(a))
 		switch {
 		case v == nil:
-			out[i] = 0
+			out[i], fine[i] = 0, "none"
 		case v.IsBonded():
-			out[i] = 2
+			out[i], fine[i] = 2, "bonded"
 		default:
 			out[i] = 1
+			fine[i] = strings.ToLower(strings.TrimPrefix(v.GetStatus().String(), "BOND_STATUS_"))
+			if v.IsJailed() {
+				fine[i] += "-jailed"
+			}
 		}
 	}
-	return out
+	return out, fine
 }
 
 func classify(err error) string {
@@ -276,7 +295,7 @@ func (w *c11World) snapshot(ctx sdk.Context, o *c11Obs) {
 	sort.Slice(o.Feed, func(i, j int) bool { return o.Feed[i][0] < o.Feed[j][0] })
 	p, _ := k.Params.Get(ctx)
 	o.VP = p.VotePeriod
-	o.Status = w.status(ctx)
+	o.Status, o.VState = w.status(ctx)
 }
 
 func (w *c11World) bech(i int, val bool) string {
@@ -343,7 +362,7 @@ func (w *c11World) oracleMsg(ctx sdk.Context, op c11Op, o *c11Obs) sdk.Msg {
 }
 
 func (w *c11World) apply(op c11Op) c11Obs {
-	ctx := w.ctx.WithBlockHeight(op.H)
+	ctx := w.ctx.WithBlockHeight(op.H).WithBlockTime(w.ctx.BlockTime().Add(w.off))
 	o := c11Obs{SignerOK: true}
 	var err error
 	pan := Recover(func() {
@@ -359,6 +378,7 @@ func (w *c11World) apply(op c11Op) c11Obs {
 			if op.Sudo {
 				sender = w.root
 			}
+			o.EditOK = op.VP <= c11SlashWindow
 			pm := &otypes.OracleParamsMsg{VotePeriod: op.VP}
 			for _, p := range op.WL {
 				pm.Whitelist = append(pm.Whitelist, asset.Pair(p))
@@ -371,10 +391,33 @@ func (w *c11World) apply(op c11Op) c11Obs {
 			}
 			staking.EndBlocker(ctx, w.app.StakingKeeper)
 		case "unjail":
-			if v, ok := w.app.StakingKeeper.GetValidator(ctx, sdk.ValAddress(w.acc[op.Val%c11NAddr])); ok && v.IsJailed() {
+			if v, ok := w.app.StakingKeeper.GetValidator(ctx, sdk.ValAddress(w.acc[op.Val%c11NAddr])); ok && v.IsJailed() && v.Tokens.IsPositive() {
 				ca, _ := v.GetConsAddr()
 				w.app.StakingKeeper.Unjail(ctx, ca)
 			}
+			staking.EndBlocker(ctx, w.app.StakingKeeper)
+		case "maxvals": // a full active set displaces the weakest validators: Unbonding, NOT jailed
+			sp := w.app.StakingKeeper.GetParams(ctx)
+			sp.MaxValidators = op.N
+			if sp.MaxValidators == 0 {
+				sp.MaxValidators = 100
+			}
+			_ = w.app.StakingKeeper.SetParams(ctx, sp)
+			staking.EndBlocker(ctx, w.app.StakingKeeper)
+		case "undelegate": // the operator withdraws its whole self-delegation: jailed + Unbonding, removed once mature
+			va := sdk.ValAddress(w.acc[op.Val%c11NAddr])
+			if v, ok := w.app.StakingKeeper.GetValidator(ctx, va); ok && v.Tokens.IsPositive() {
+				if d, found := w.app.StakingKeeper.GetDelegation(ctx, w.acc[op.Val%c11NAddr], va); found {
+					amt := v.TokensFromShares(d.Shares).TruncateInt()
+					if amt.IsPositive() {
+						_, _ = w.sh.Undelegate(ctx, stakingtypes.NewMsgUndelegate(w.acc[op.Val%c11NAddr], va, sdk.NewCoin("unibi", amt)))
+					}
+				}
+			}
+			staking.EndBlocker(ctx, w.app.StakingKeeper)
+		case "mature": // the unbonding time passes: Unbonding -> Unbonded; validators without delegations are removed
+			w.off += c11UnbondingTime + time.Second
+			ctx = ctx.WithBlockTime(w.ctx.BlockTime().Add(w.off))
 			staking.EndBlocker(ctx, w.app.StakingKeeper)
 		case "create":
 			i := op.Val % c11NAddr
@@ -507,6 +550,13 @@ func genC11Case(r *Rng) c11Input {
 	if nblocks > 20 {
 		nblocks = 20
 	}
+	for v := 0; v < in.NVals; v++ {
+		if r.Chance(1, 2) {
+			d := r.Range(5, 7)
+			in.Ops = append(in.Ops, c11Op{Kind: "delegate", H: h, Val: v, Delegate: d})
+			curDel[v] = d
+		}
+	}
 	for b := 0; b < nblocks; b++ {
 		// the feeder routine of a price feeder: reveal last period's commitment, commit the next one
 		for v := 0; v < in.NVals; v++ {
@@ -604,7 +654,9 @@ func genC11Case(r *Rng) c11Input {
 				}
 			case 3: // edit params
 				op := c11Op{Kind: "edit", H: h, Sudo: !r.Chance(1, 5)}
-				switch r.Pick(6, 2, 2) {
+				switch r.Pick(6, 2, 2, 1) {
+				case 3: // VotePeriod > SlashWindow: refused by Params.Validate
+					op.VP = c11SlashWindow << uint(r.Range(1, 3))
 				case 0:
 					op.VP = vps[r.Intn(len(vps))]
 					if op.Sudo {
@@ -622,9 +674,23 @@ func genC11Case(r *Rng) c11Input {
 				}
 				in.Ops = append(in.Ops, op)
 			case 4:
-				in.Ops = append(in.Ops, c11Op{Kind: "jail", H: h, Val: r.Intn(in.NVals)})
+				switch r.Pick(3, 4, 2) {
+				case 0:
+					in.Ops = append(in.Ops, c11Op{Kind: "jail", H: h, Val: r.Intn(in.NVals)})
+				case 1: // shrink the active set (the app's genesis validator occupies a slot too)
+					in.Ops = append(in.Ops, c11Op{Kind: "maxvals", H: h, N: uint32(r.Range(1, in.NVals))})
+				case 2:
+					in.Ops = append(in.Ops, c11Op{Kind: "undelegate", H: h, Val: r.Intn(in.NVals)})
+				}
 			case 5:
-				in.Ops = append(in.Ops, c11Op{Kind: "unjail", H: h, Val: r.Intn(in.NVals)})
+				switch r.Pick(3, 3, 3) {
+				case 0:
+					in.Ops = append(in.Ops, c11Op{Kind: "unjail", H: h, Val: r.Intn(in.NVals)})
+				case 1:
+					in.Ops = append(in.Ops, c11Op{Kind: "maxvals", H: h, N: 100})
+				case 2:
+					in.Ops = append(in.Ops, c11Op{Kind: "mature", H: h})
+				}
 			case 6:
 				if r.Chance(1, 2) {
 					in.Ops = append(in.Ops, c11Op{Kind: "create", H: h, Val: r.Range(in.NVals, 4)})
@@ -664,6 +730,25 @@ func c11Openers() []c11Input {
 		{VP0: 2, NVals: 3, Ops: []c11Op{
 			{Kind: "delegate", H: 1, Val: 0, Delegate: 5}, pv(2, 5, 0, "1", R), {Kind: "delegate", H: 2, Val: 0, Delegate: 6},
 			end(3), vt(4, 5, 0, "1", R), vt(4, 6, 0, "1", R), pv(4, 5, 0, "1", R), pv(4, 0, 0, "1", R), pv(4, 7, 0, "1", R)}},
+		// every validator state: bonded, displaced from a full active set (Unbonding, not jailed), jailed,
+		// Unbonded after the unbonding time, removed after a full self-undelegation; prevote and vote by the
+		// validator and by its feeder in each
+		{VP0: 1, NVals: 3, Ops: []c11Op{
+			{Kind: "delegate", H: 2, Val: 0, Delegate: 5}, {Kind: "delegate", H: 2, Val: 1, Delegate: 6}, {Kind: "delegate", H: 2, Val: 2, Delegate: 7},
+			pv(2, 5, 0, "1", R), pv(2, 1, 1, "1", R), pv(2, 7, 2, "1", R), end(2),
+			vt(3, 5, 0, "1", R), vt(3, 6, 1, "1", R), vt(3, 2, 2, "1", R), pv(3, 0, 0, "1", R), pv(3, 6, 1, "1", R), pv(3, 2, 2, "1", R), end(3),
+			{Kind: "maxvals", H: 4, N: 2},
+			vt(4, 0, 0, "1", R), vt(4, 5, 0, "1", R), vt(4, 6, 1, "1", R), vt(4, 1, 1, "1", R), vt(4, 2, 2, "1", R), vt(4, 7, 2, "1", R),
+			pv(4, 0, 0, "1", R), pv(4, 5, 0, "1", R), pv(4, 1, 1, "1", R), pv(4, 6, 1, "1", R), pv(4, 2, 2, "1", R), pv(4, 7, 2, "1", R), end(4),
+			{Kind: "jail", H: 5, Val: 1}, {Kind: "undelegate", H: 5, Val: 2},
+			vt(5, 0, 0, "1", R), vt(5, 5, 0, "1", R), vt(5, 1, 1, "1", R), vt(5, 6, 1, "1", R), vt(5, 2, 2, "1", R), vt(5, 7, 2, "1", R),
+			pv(5, 0, 0, "1", R), pv(5, 5, 0, "1", R), pv(5, 1, 1, "1", R), pv(5, 6, 1, "1", R), pv(5, 2, 2, "1", R), pv(5, 7, 2, "1", R), end(5),
+			{Kind: "mature", H: 6},
+			vt(6, 0, 0, "1", R), vt(6, 5, 0, "1", R), vt(6, 6, 1, "1", R), vt(6, 7, 2, "1", R),
+			pv(6, 0, 0, "1", R), pv(6, 5, 0, "1", R), pv(6, 1, 1, "1", R), pv(6, 6, 1, "1", R), pv(6, 2, 2, "1", R), pv(6, 7, 2, "1", R), end(6),
+			{Kind: "maxvals", H: 7, N: 100}, {Kind: "unjail", H: 7, Val: 1},
+			vt(7, 5, 0, "1", R), pv(7, 5, 0, "1", R), pv(7, 6, 1, "1", R), pv(7, 7, 2, "1", R), end(7),
+			vt(8, 5, 0, "1", R), vt(8, 6, 1, "1", R)}},
 		// copy-cat commitment, unbonded validator, VotePeriod edit between prevote and vote
 		{VP0: 5, NVals: 3, Ops: []c11Op{
 			pv(7, 0, 0, "1", R), {Kind: "prevote", H: 7, Feeder: 1, Val: 1, HashFor: 0, HashMode: "honest", Salt: "1", Rates: R},
